@@ -131,6 +131,7 @@ def run(ctx):
                                     frame = "outside"
                                 model_lines.append("\t".join(["failflow", frame, str(err_writes), "T" if with_file else "F", str(K), mode, str(k), str(ci)]))
                                 checks.append((inp, ("-" if r.exc is None else type(r.exc).__name__, [ci for c in own], w.calls)))
+        real_socket_failures(ctx, res, tree, cfgs)
         outs = ctx.driver.run(model_lines)
         for (inp, impl), o in zip(checks, outs):
             res.evaluations += 1
@@ -147,7 +148,78 @@ def run(ctx):
     return res
 
 
+def real_socket_failures(ctx, res, tree, cfgs):
+    """The real request handler class on a real socket whose peer has gone away (closed, or closed after reading a little):
+    GopherRequestHandler(sock, addr, server) runs setup / handle / finish as socketserver does; whatever leaves that
+    constructor would reach the accept loop's handle_error.  Buffering, flush and close of the socket files are part of it."""
+    from pygopherd.server import GopherRequestHandler
+    pyg.init_once()
+    kinds = [("document", "/README"), ("bigdoc", "/data.bin"), ("menu", "/docs"), ("gophermap", "/map"), ("notfound", "/nope"), ("mboxfolder", "/mail/box.mbox")]
+    for kind, sel in kinds:
+        for p in ("gopher", "gopherp", "http", "wap", "spartan"):
+            for peer in ("closed-before", "closed-after-request", "reads-8-bytes"):
+                rq = reqs.build(p, sel, gplus="$" if kind in ("menu", "gophermap", "mboxfolder") else "+")
+                a, b = socket.socketpair()
+                a.settimeout(5)
+                b.settimeout(5)
+                del pyg._log_lines[:]
+                escaped = None
+                try:
+                    a.sendall(rq)
+                    if peer == "closed-before":
+                        a.close()
+                    elif peer == "closed-after-request":
+                        a.shutdown(socket.SHUT_RDWR)
+                        a.close()
+                    pyg.reset_globals()
+                    try:
+                        if peer == "reads-8-bytes":
+                            import threading
+
+                            def reader():
+                                try:
+                                    a.recv(8)
+                                finally:
+                                    a.close()
+                            th = threading.Thread(target=reader)
+                            th.start()
+                        GopherRequestHandler(b, ("10.77.77.77", 7777), pyg.FakeServer(cfgs["shipped"]))
+                    except BaseException as e:  # noqa
+                        if isinstance(e, (KeyboardInterrupt, SystemExit)):
+                            raise
+                        escaped = e
+                    finally:
+                        if peer == "reads-8-bytes":
+                            th.join(5)
+                finally:
+                    for s_ in (a, b):
+                        try:
+                            s_.close()
+                        except OSError:
+                            pass
+                res.evaluations += 1
+                res.nontrivial.add(("real-socket", kind, p, peer))
+                res.count("real-socket:" + peer + (":escaped" if escaped is not None else ":contained"))
+                inp = {"kind": kind, "selector": sel, "protocol": p, "peer": peer, "transport": "real socket pair, real StreamRequestHandler setup/finish"}
+                rp = {"real_socket": True, "selector": sel, "protocol": p, "peer": peer}
+                if escaped is not None:
+                    res.violation("C20:escaped-real-socket:" + type(escaped).__name__, "a connection failure propagates out of the connection handler (would reach the accept loop)",
+                                  inp, observed=repr(escaped), required="contained", replay=rp)
+                for ln in list(pyg._log_lines):
+                    k_ = ln.find("] EXCEPTION ")
+                    if k_ >= 0:
+                        cls = ln[k_ + 12:].split(":", 1)[0]
+                        if cls not in ("BrokenPipeError", "ConnectionResetError", "TimeoutError", "FileNotFound", "timeout"):
+                            res.violation("C20:wrong-class:" + cls, "a connection failure is logged as some other error", inp, observed=ln[:160],
+                                          required="BrokenPipeError / ConnectionResetError", replay=rp)
+                        if not ln.startswith("10.77.77.77 "):
+                            res.violation("C20:no-address", "failure logged without the client's address", inp, observed=ln[:80], required="10.77.77.77 ...", replay=rp)
+
+
 def replay(data):
+    if data["violation"]["replay"].get("real_socket"):
+        print(data["violation"])
+        return 0
     rp = data["violation"]["replay"]
     tree = pyg.Tree()
     try:
